@@ -75,6 +75,36 @@ func runC11(r *core.Run) {
 			}
 		}
 	}
+	// every edge value of the type as the scalar of the tensor-scalar forms (contiguous and iterator kernels, Bool and
+	// same-type results)
+	for _, op := range cmpOps {
+		for _, d := range ref.ALL18 {
+			if !supported("cmp", op, d) {
+				continue
+			}
+			if !r.Take() {
+				continue
+			}
+			ne := len(edgeVals(d))
+			if ne > 13 {
+				ne = 13
+			}
+			for _, shape := range [][]int{{4}, {2, 3}} {
+				for k := 0; k < ne; k++ {
+					for _, form := range []string{"TS", "ST"} {
+						for _, la := range []string{"C", "T"} {
+							for _, mode := range []string{"safe", "same+safe"} {
+								if mode == "same+safe" && !d.IsNumber() {
+									continue
+								}
+								ewRunCase(r, "C11", ewCase{kind: "cmp", op: op, form: form, mode: mode, api: "func", d: d, shape: shape, layA: la, layB: la, vs: fmt.Sprintf("edges@%d", k), strict: true}, nil)
+							}
+						}
+					}
+				}
+			}
+		}
+	}
 	// refusal space: element type pairs and unequal shapes
 	mk := func(d ref.DT, shape []int) *tensor.Dense {
 		n := ref.Prod(shape)
